@@ -46,7 +46,8 @@ VARIABLES cfg,       \* [mode, bw, mingap, maxgap, fmt, w, pre, max0]   fixed pe
 vars == <<cfg, bar, sec, term, shown, sinceAdv, plog, last>>
 
 Modes == {"ansi", "plain", "section", "quiet"}
-Formats == {"normal", "msg", "two"}
+Formats == {"normal", "msg", "two"}                          \* rendered cell by cell by the A-layer
+Named == {"normal", "verbose", "very_verbose", "debug"}      \* built-in formats: have a variant without maximum
 \*   "normal"  the built-in format of normal verbosity:  " %current%/%max% [%bar%] %percent:3s%%"  /  without a
 \*             maximum at the first display  " %current% [%bar%]"
 \*   "msg"     custom:  "%message% %current%/%max% [%bar%] %percent:3s%%"
@@ -86,7 +87,7 @@ QuietNothing == Quiet => last.ops = <<>>
 \* how the P-state follows a call that wrote the frames fs
 RECURSIVE LinesOf(_)
 LinesOf(fs) == IF fs = <<>> THEN <<>> ELSE Head(fs).lines \o LinesOf(Tail(fs))
-CapAdd(x, dt) == IF x < 0 THEN x ELSE TMin(cfg.maxgap, x + dt)
+CapAdd(x, dt) == IF x < 0 THEN x ELSE TMin(cfg.mingap, x + dt)      \* only ever compared with mingap
 ShownAfter(op, fs) == IF fs # <<>> THEN fs[Len(fs)]
                       ELSE IF op = "clear" /\ Overwrites THEN Cleared ELSE shown
 SinceAdvAfter(op, fs, dt) == IF op \in {"advance", "set"} /\ fs # <<>> THEN 0 ELSE CapAdd(sinceAdv, dt)
@@ -109,15 +110,15 @@ BarCells(b) == LET fill == FillOf(b) IN
                \o (IF fill < cfg.bw THEN <<">">> \o Rep("-", cfg.bw - fill - 1) ELSE <<>>)
 Cur(b) == RJust(Digits(b.step), b.stepw)
 Render(b) ==
-  CASE cfg.fmt = "normal" /\ b.nomax -> << <<" ">> \o Cur(b) \o <<" ", "[">> \o BarCells(b) \o <<"]">> >>
-    [] cfg.fmt = "normal" -> << <<" ">> \o Cur(b) \o <<"/">> \o Digits(b.max) \o <<" ", "[">> \o BarCells(b)
+  CASE cfg.fmt \in Named /\ b.nomax -> << <<" ">> \o Cur(b) \o <<" ", "[">> \o BarCells(b) \o <<"]">> >>
+    [] cfg.fmt \in Named -> << <<" ">> \o Cur(b) \o <<"/">> \o Digits(b.max) \o <<" ", "[">> \o BarCells(b)
                                 \o <<"]", " ">> \o RJust(Digits(Pct(b)), 3) \o <<"%">> >>
     [] cfg.fmt = "msg" -> << b.msg \o <<" ">> \o Cur(b) \o <<"/">> \o Digits(b.max) \o <<" ", "[">> \o BarCells(b)
                              \o <<"]", " ">> \o RJust(Digits(Pct(b)), 3) \o <<"%">> >>
     [] OTHER -> << Cur(b) \o <<"/">> \o Digits(b.max) \o <<" ", "[">> \o BarCells(b) \o <<"]">>, b.msg >>
 FrameOf(b) ==
-  [ok |-> TRUE, cur |-> b.step, hasmax |-> ~(cfg.fmt = "normal" /\ b.nomax), max |-> b.max,
-   haspct |-> cfg.fmt = "msg" \/ (cfg.fmt = "normal" /\ ~b.nomax), pct |-> Pct(b), bar |-> BarCells(b),
+  [ok |-> TRUE, cur |-> b.step, hasmax |-> ~(cfg.fmt \in Named /\ b.nomax), max |-> b.max,
+   haspct |-> cfg.fmt = "msg" \/ (cfg.fmt \in Named /\ ~b.nomax), pct |-> Pct(b), bar |-> BarCells(b),
    lines |-> Render(b)]
 
 \* "\n".join(lines): text, newline, text ... without a final newline; an empty line emits nothing
@@ -159,7 +160,7 @@ Result(ops, b, s, fs) == [ops |-> ops, b |-> b, s |-> s, frames |-> fs]
 Nothing(b, s) == Result(<<>>, b, s, <<>>)
 
 FixFormat(b) == IF b.fmtset THEN b      \* _set_real_format at the first display / clear
-                ELSE [b EXCEPT !.fmtset = TRUE, !.nomax = (cfg.fmt = "normal" /\ b.max = 0),
+                ELSE [b EXCEPT !.fmtset = TRUE, !.nomax = (cfg.fmt \in Named /\ b.max = 0),
                                !.flc = IF cfg.fmt = "two" THEN 1 ELSE 0]
 
 Display(b, s) ==
@@ -228,15 +229,14 @@ InitWith(c) ==                                               \* c.max0: the maxi
 Call(dt, op, arg) ==
   LET b0  == Tick(bar, dt)
       gap == CapAdd(sinceAdv, dt)
-      r   == CallResult(op, arg, b0, sec)
-      b1  == r.b
-  IN /\ bar' = b1 /\ sec' = r.s
-     /\ term' = ApplyOps(term, r.ops)
-     /\ shown' = ShownAfter(op, r.frames)
-     /\ sinceAdv' = SinceAdvAfter(op, r.frames, dt)
-     /\ plog' = plog \o LinesOf(r.frames)
-     /\ last' = Event(op, arg, dt, gap, r, b1)
-     /\ UNCHANGED cfg
+  IN \E r \in {CallResult(op, arg, b0, sec)} :               \* (a singleton: evaluated once, then bound)
+       /\ bar' = r.b /\ sec' = r.s
+       /\ term' = ApplyOps(term, r.ops)
+       /\ shown' = ShownAfter(op, r.frames)
+       /\ sinceAdv' = SinceAdvAfter(op, r.frames, dt)
+       /\ plog' = plog \o LinesOf(r.frames)
+       /\ last' = Event(op, arg, dt, gap, r, r.b)
+       /\ UNCHANGED cfg
 
 SetMessage(m) == /\ bar' = [bar EXCEPT !.msg = m]
                  /\ last' = [last EXCEPT !.op = "msg", !.arg = Len(m), !.dt = 0, !.gap = -1, !.frames = <<>>,
